@@ -451,6 +451,10 @@ from_feel_number_into!(u32);
 
 /// Converts a string in scientific notation into digits without exponent.
 fn scientific_to_plain(s: String) -> String {
+  // the sign is kept aside, the digits are rewritten
+  if let Some(digits) = s.strip_prefix('-') {
+    return format!("-{}", scientific_to_plain(digits.to_string()));
+  }
   if s.contains("E+") {
     let mut split1 = s.split("E+");
     let before_exponent = split1.next().unwrap();
